@@ -55,6 +55,19 @@ def _range_tabulate(ctx, m) -> bool | None:
         cases.append(("Date", a, b, unit, amt))
     bad, n = [], 0
 
+    def length_state(elapsed: _dt.timedelta, absolute: bool) -> dict:
+        """what Duration.__new__ leaves on an Interval for its elapsed length (C05 / C09): whole days, the rest, the total"""
+        us = (elapsed.days * 86400 + elapsed.seconds) * 10**6 + elapsed.microseconds
+        if absolute:
+            us = abs(us)
+        sg = -1 if us < 0 else 1
+        a_ = abs(us)
+        days = a_ // 10**6 // 86400 * sg
+        st = {"_days": days, "_seconds": a_ // 10**6 % 86400 * sg, "_microseconds": a_ % 10**6 * sg, "_total": us / 10**6, "_weeks": abs(days) // 7 * sg, "_remaining_days": abs(days) % 7 * sg,
+              "total_seconds": lambda: us / 10**6}
+        st.update(days=days, _native=_dt.timedelta(microseconds=us))
+        return st
+
     def shift(w, unit, k):
         import calendar
         if unit in ("years", "months"):
@@ -78,8 +91,9 @@ def _range_tabulate(ctx, m) -> bool | None:
                 glob = {"operator": minieval.Stub(le=operator.le, ge=operator.ge, lt=operator.lt, gt=operator.gt), "Iterator": None,
                         "datetime": _dt.datetime, "date": _dt.date, "timezone": _dt.timezone, "timedelta": _dt.timedelta}
                 funcs = {st.name: st for st in m.top() if isinstance(st, ast.FunctionDef)}
-                iv = minieval.Obj(_methods=meths, _props=props, _ctor=None, _natives={}, start=val(s0), end=val(e0), _start=val(s0), _end=val(e0),
-                                  _absolute=ab, _invert=inv, invert=inv, absolute=ab, _types=(_dt.timedelta,), _truth=(s0 != e0))        # an Interval is a timedelta: false when empty
+                iv = minieval.Obj(_methods=meths, _props=props - {"days"}, _ctor=None, _natives={}, start=val(s0), end=val(e0), _start=val(s0), _end=val(e0),
+                                  _absolute=ab, _invert=inv, invert=inv, absolute=ab, _types=(_dt.timedelta,), _truth=(s0 != e0),        # an Interval is a timedelta: false when empty
+                                  **length_state(e0 - s0, ab))
                 sign = -1 if (inv and not ab) else 1
                 want, k = [], 0
                 while True:
@@ -130,7 +144,10 @@ def _range_tabulate(ctx, m) -> bool | None:
         for (wa, fa), (wb, fb), unit, amt in [((D(2300, 5, 6, 7, 8, 9, 1), 0), (D(2300, 5, 6, 7, 8, 9, 4), 0), "microseconds", 1), ((D(9000, 1, 1, 0, 0, 0, 999998), 0), (D(9000, 1, 1, 0, 0, 1, 0), 0), "microseconds", 1),
                                                ((D(2021, 10, 31, 1, 45), 0), (D(2021, 10, 31, 2, 15), 1), "minutes", 30), ((D(2021, 10, 31, 0, 30), 0), (D(2021, 10, 31, 4, 30), 0), "hours", 1),
                                                ((D(2021, 10, 31, 2, 30), 0), (D(2021, 10, 31, 2, 30), 1), "minutes", 20), ((D(2021, 10, 31, 2, 50), 0), (D(2021, 10, 31, 2, 10), 1), "minutes", 7),
-                                               ((D(2021, 10, 31, 2, 10), 1), (D(2021, 10, 31, 3, 40), 0), "minutes", 45)]:
+                                               ((D(2021, 10, 31, 2, 10), 1), (D(2021, 10, 31, 3, 40), 0), "minutes", 45),
+                                               # whole days across the repeated hour: the days of the calendar, not periods of 24 hours (the interval is 25 hours longer / shorter than its days)
+                                               ((D(2021, 10, 30, 12, 0), 0), (D(2021, 11, 1, 11, 30), 0), "days", 1), ((D(2021, 10, 28, 2, 30), 0), (D(2021, 11, 2, 2, 30), 0), "days", 1),
+                                               ((D(2021, 10, 30, 3, 30), 0), (D(2021, 10, 31, 2, 45), 0), "days", 1)]:
             A, B = wld.datetime(wa, fa), wld.datetime(wb, fb)
             ia, ib = wld.instant(A), wld.instant(B)
             for mode in ("forward", "inverted", "inverted-absolute"):
@@ -140,18 +157,33 @@ def _range_tabulate(ctx, m) -> bool | None:
                     s0, e0, i0, i1, inv, ab = B, A, ib, ia, True, False
                 else:
                     s0, e0, i0, i1, inv, ab = A, B, ia, ib, True, True
-                iv = minieval.Obj(_methods=meths, _props=props, _ctor=None, _natives={}, start=s0, end=e0, _start=s0, _end=e0, _absolute=ab, _invert=inv, invert=inv, absolute=ab,
-                                  _types=(_dt.timedelta,), _truth=(i0 != i1))
+                iv = minieval.Obj(_methods=meths, _props=props - {"days"}, _ctor=None, _natives={}, start=s0, end=e0, _start=s0, _end=e0, _absolute=ab, _invert=inv, invert=inv, absolute=ab,
+                                  _types=(_dt.timedelta,), _truth=(i0 != i1), **length_state(i1 - i0, ab))
                 sign = -1 if (inv and not ab) else 1
                 want, k = [], 0
                 while True:
-                    v = i0 + sign * k * amt * _dt.timedelta(**{unit: 1})
+                    if unit == "days":          # a calendar unit: the wall clock of the start moved by whole days, read by the construction rules
+                        w_ = vars(s0)["_wall"] + sign * k * amt * _dt.timedelta(days=1)
+                        c_ = wld.place(w_, 1) if k else s0
+                        v = wld.instant(c_)
+                        item = (vars(c_)["_wall"], vars(c_)["fold"])
+                    else:
+                        v = i0 + sign * k * amt * _dt.timedelta(**{unit: 1})
+                        item = wld.from_instant(v)
                     if (v > i1) if sign > 0 else (v < i1):
                         break
-                    want.append(wld.from_instant(v))
+                    want.append(item)
                     k += 1
                 n += 1
-                got = minieval.call(meths["range"], [iv, unit, amt], {}, {**funcs, "$globals": glob})
+                import itertools as _it2
+                got = list(_it2.islice(minieval.call(meths["range"], [iv, unit, amt], {}, {**funcs, "$globals": glob}), len(want) + 4))
+                if unit == "days" and amt == 1 and "__iter__" in meths:
+                    n += 1
+                    it_ = list(_it2.islice(minieval.call(meths["__iter__"], [iv], {}, {**funcs, "$globals": glob}), len(want) + 4))
+                    ik = [(vars(o)["_wall"], vars(o)["fold"] if wld.ambiguous(vars(o)["_wall"]) else 0) for o in it_]
+                    if ik != [(w_, f_ if wld.ambiguous(w_) else 0) for w_, f_ in want]:
+                        bad.append(f"interval {wa.isoformat(' ')} .. {wb.isoformat(' ')} across the repeated hour of 2021-10-31 ({mode}): iterating it gives {len(ik)} values "
+                                   f"({[w_.isoformat(' ') for w_, _ in ik][-2:]} last), its calendar days are {len(want)}")
                 gk = [(vars(o)["_wall"], vars(o)["fold"] if wld.ambiguous(vars(o)["_wall"]) else 0) for o in got]
                 wk = [(w_, f_ if wld.ambiguous(w_) else 0) for w_, f_ in want]
                 if gk != wk:
